@@ -1,1 +1,237 @@
-// harness bodies compiled inside quinn-proto/src/connection/streams/send.rs (feature __verif-hooks)
+// Harness bodies for quinn-proto/src/connection/streams/send.rs (sending half of a stream).
+
+use crate::connection::send_buffer::verif::mk_send_buffer;
+
+const V62: u64 = 1 << 62;
+static ZEROS: [u8; 65536] = [0; 65536];
+
+/// BytesSource handing out up to `remaining` bytes from a static buffer in one chunk (no
+/// allocation): lets the budget arithmetic of `Send::write` run over 16-bit lengths.
+struct StaticSource {
+    remaining: usize,
+}
+
+impl BytesSource for StaticSource {
+    fn pop_chunk(&mut self, limit: usize) -> (Bytes, usize) {
+        let n = limit.min(self.remaining);
+        if n == 0 {
+            return (Bytes::new(), 0);
+        }
+        self.remaining -= n;
+        (Bytes::from_static(&ZEROS[..n]), usize::from(self.remaining == 0))
+    }
+}
+
+fn mk_state(kind: u8) -> Option<SendState> {
+    Some(match kind {
+        0 => SendState::Ready,
+        1 => SendState::DataSent { finish_acked: false },
+        2 => SendState::DataSent { finish_acked: true },
+        3 => SendState::ResetSent,
+        _ => return None,
+    })
+}
+
+/// NB: all precondition checks happen BEFORE any heap-owning value is built, and every body
+/// `mem::forget`s what it built: drop glue of VecDeque<Bytes>/BTreeMap is expensive to encode and
+/// not the subject of any obligation here.
+fn valid_send(kind: u8, stop_code: u64, max_data: u64, offset: u64, unsent: u64, unacked_len: usize) -> bool {
+    kind <= 3 && stop_code < V62 && max_data < V62 && offset <= max_data && unsent <= offset && unacked_len as u64 <= offset
+}
+
+fn mk_send(kind: u8, stopped: bool, stop_code: u64, fin_pending: bool, max_data: u64, offset: u64, unsent: u64, unacked_len: usize) -> Send {
+    Send {
+        max_data,
+        state: mk_state(kind).unwrap(),
+        pending: mk_send_buffer(offset, unsent, unacked_len),
+        priority: 0,
+        fin_pending,
+        connection_blocked: false,
+        stop_reason: if stopped { Some(unsafe { VarInt::from_u64_unchecked(stop_code) }) } else { None },
+    }
+}
+
+/// C05.b / C11.a: `Send::write` from an arbitrary half-state: ClosedStream unless Ready, the
+/// peer's STOP_SENDING code once stopped, Blocked iff no stream credit, otherwise exactly
+/// min(limit, max_data - offset, source length) bytes are accepted and the offset advances by that
+/// much (never past max_data).
+pub fn write(kind: u8, stopped: bool, stop_code: u64, max_data: u64, offset: u64, limit: u64, src_len: usize) -> u32 {
+    if src_len > 65536 || !valid_send(kind, stop_code, max_data, offset, offset, 0) {
+        return 0;
+    }
+    let mut s = mk_send(kind, stopped, stop_code, false, max_data, offset, offset, 0);
+    let mut src = StaticSource { remaining: src_len };
+    let r = s.write(&mut src, limit);
+    let f;
+    if kind != 0 {
+        assert!(matches!(r, Err(WriteError::ClosedStream)));
+        f = 2;
+    } else if stopped {
+        assert!(matches!(r, Err(WriteError::Stopped(c)) if c.into_inner() == stop_code));
+        f = 4;
+    } else if max_data == offset {
+        assert!(matches!(r, Err(WriteError::Blocked)));
+        f = 8;
+    } else {
+        let want = (limit.min(max_data - offset)).min(src_len as u64);
+        let Ok(w) = r else { panic!("write must succeed") };
+        assert!(w.bytes as u64 == want);
+        assert!(s.pending.offset() == offset + want);
+        assert!(s.pending.offset() <= s.max_data);
+        assert!(src.remaining == src_len - want as usize);
+        assert!(w.chunks == usize::from(want as usize == src_len && src_len > 0));
+        f = 1 | (if want == max_data - offset && want < src_len as u64 { 16 } else { 0 }) | (if want == limit && limit < src_len as u64 { 32 } else { 0 });
+    }
+    if r.is_err() {
+        assert!(s.pending.offset() == offset && s.max_data == max_data && src.remaining == src_len);
+        assert!(s.state == mk_state(kind).unwrap());
+    }
+    core::mem::forget(s);
+    f
+}
+
+/// C05.b / C01 with the real `ByteSlice` source (allocating path), payload <= 4 bytes: accepted
+/// bytes are exactly the budgeted prefix of the source and can be read back at their offsets.
+/// (The length is dispatched to concrete values so that allocation sizes are concrete.)
+pub fn write_byteslice(max_data: u64, offset: u64, limit: u64, data: [u8; 4], len: usize) -> u32 {
+    if len > 4 || !valid_send(0, 0, max_data, offset, offset, 0) {
+        return 0;
+    }
+    match len {
+        0 => write_byteslice_n(max_data, offset, limit, &data[..0]),
+        1 => write_byteslice_n(max_data, offset, limit, &data[..1]),
+        2 => write_byteslice_n(max_data, offset, limit, &data[..2]),
+        3 => write_byteslice_n(max_data, offset, limit, &data[..3]),
+        _ => write_byteslice_n(max_data, offset, limit, &data[..4]),
+    }
+}
+
+fn write_byteslice_n(max_data: u64, offset: u64, limit: u64, data: &[u8]) -> u32 {
+    let len = data.len();
+    let mut s = mk_send(0, false, 0, false, max_data, offset, offset, 0);
+    let mut src = ByteSlice::from_slice(data);
+    let r = s.write(&mut src, limit);
+    let f;
+    if max_data == offset {
+        assert!(matches!(r, Err(WriteError::Blocked)));
+        f = 2;
+    } else {
+        let want = (limit.min(max_data - offset)).min(len as u64) as usize;
+        let Ok(w) = r else { panic!("write must succeed") };
+        assert!(w.bytes == want);
+        assert!(s.pending.offset() == offset + want as u64);
+        // the accepted bytes are a prefix of the source, retrievable at their stream offsets
+        if want > 0 {
+            let got = s.pending.get(offset..offset + want as u64);
+            assert!(got.len() == want);
+            let mut i = 0;
+            while i < want {
+                assert!(got[i] == data[i]);
+                i += 1;
+            }
+        }
+        f = 1 | (if want > 0 && want < len { 4 } else { 0 });
+    }
+    core::mem::forget(s);
+    f
+}
+
+/// C11.a: `finish`, `reset`, `try_stop`, `increase_max_data`, `is_writable`, `is_reset` against
+/// the stream-state table, from every abstract state.
+pub fn half_state_ops(kind: u8, stopped: bool, stop_code: u64, fin_pending: bool, max_data: u64, offset: u64, op: u8, arg: u64) -> u32 {
+    if arg >= V62 || op > 4 || !valid_send(kind, stop_code, max_data, offset, offset, 0) {
+        return 0;
+    }
+    let mut s = mk_send(kind, stopped, stop_code, fin_pending, max_data, offset, offset, 0);
+    let st0 = s.state;
+    let f;
+    match op {
+        0 => {
+            let r = s.finish();
+            if stopped {
+                assert!(matches!(r, Err(FinishError::Stopped(c)) if c.into_inner() == stop_code));
+                assert!(s.state == st0 && s.fin_pending == fin_pending);
+            } else if kind == 0 {
+                assert!(r.is_ok());
+                assert!(s.state == SendState::DataSent { finish_acked: false } && s.fin_pending);
+                // finished streams accept no more data or finishes
+                assert!(!s.is_writable());
+                assert!(matches!(s.finish(), Err(FinishError::ClosedStream)));
+            } else {
+                assert!(matches!(r, Err(FinishError::ClosedStream)));
+                assert!(s.state == st0);
+            }
+            f = 1;
+        }
+        1 => {
+            s.reset();
+            assert!(s.state == SendState::ResetSent && s.is_reset() && !s.is_writable());
+            s.reset();
+            assert!(s.state == SendState::ResetSent);
+            f = 2;
+        }
+        2 => {
+            let code = unsafe { VarInt::from_u64_unchecked(arg) };
+            let first = s.try_stop(code);
+            assert!(first == !stopped);
+            let want = if stopped { stop_code } else { arg };
+            assert!(matches!(s.stop_reason, Some(c) if c.into_inner() == want));
+            assert!(!s.try_stop(unsafe { VarInt::from_u64_unchecked(arg ^ 1) }));
+            assert!(matches!(s.stop_reason, Some(c) if c.into_inner() == want));
+            assert!(s.state == st0);
+            f = 4;
+        }
+        3 => {
+            let unblocked = s.increase_max_data(arg);
+            if arg <= max_data || kind != 0 {
+                assert!(!unblocked && s.max_data == max_data);
+            } else {
+                assert!(s.max_data == arg);
+                assert!(unblocked == (offset == max_data));
+            }
+            // never decreases, whatever order updates arrive in
+            assert!(s.max_data >= max_data);
+            f = 8;
+        }
+        4 => {
+            assert!(s.is_writable() == (kind == 0));
+            assert!(s.is_reset() == (kind == 3));
+            assert!(s.offset() == offset);
+            assert!(s.is_pending() == fin_pending);
+            f = 16;
+        }
+        _ => unreachable!(),
+    }
+    core::mem::forget(s);
+    f
+}
+
+/// C11.a: `Send::ack` reports completion exactly when the stream was finished, the FIN has been
+/// acknowledged (now or earlier) and no data remains unacknowledged.  Two concrete buffer shapes
+/// (nothing outstanding / 5 bytes outstanding) and an empty acknowledged range, so that only the
+/// state logic - not the range-set mechanics - is encoded.
+pub fn ack_completion(kind: u8, fin: bool, outstanding: bool) -> u32 {
+    if kind > 3 {
+        return 0;
+    }
+    if outstanding { ack_completion_n(kind, fin, 5) } else { ack_completion_n(kind, fin, 0) }
+}
+
+fn ack_completion_n(kind: u8, fin: bool, n: usize) -> u32 {
+    let mut s = mk_send(kind, false, 0, false, V62 - 1, n as u64, n as u64, n);
+    let done = s.ack(frame::StreamMeta { id: crate::StreamId(0), offsets: 0..0, fin });
+    let want = match kind {
+        1 => fin && n == 0,
+        2 => n == 0,
+        _ => false,
+    };
+    assert!(done == want);
+    if kind == 1 && fin {
+        assert!(s.state == SendState::DataSent { finish_acked: true });
+    }
+    if kind == 0 || kind == 3 {
+        assert!(s.state == mk_state(kind).unwrap());
+    }
+    core::mem::forget(s);
+    if done { 2 } else { 1 }
+}
